@@ -61,7 +61,48 @@ func (w *World) opLongHistory(step int) {
 	// bottom bits of min(k, n-k) is set
 	var bitCount [32]int
 	extracted := 0
+	// Revisits: in the two regimes where the signature is a function of
+	// (key, digest) alone, an earlier digest of this history is signed again
+	// every few events, at back-distances around the sizes a memo, ring or
+	// cache would have; the result must be what it was the first time
+	// (whatever the library remembers between calls must not show).
+	outs := make([][65]byte, 0, n)
+	revisitEvery := 3 + w.t.Choose("ops", "lh.revisit", 14)
+	revisits := 0
 	for i := 0; i < n && bad < 3; i++ {
+		if mode != 2 && bad == 0 && len(outs) == i && i > 0 && i%revisitEvery == 0 {
+			d := revisitDistances[(i/revisitEvery)%len(revisitDistances)]
+			if d <= i {
+				j := i - d
+				var dj [32]byte
+				copy(dj[:], base)
+				binary.BigEndian.PutUint32(dj[28:], binary.BigEndian.Uint32(base[28:])+uint32(j))
+				var rd io.Reader = secec.RFC6979SHA256()
+				if mode == 1 {
+					rd = scripted(bytes.Repeat([]byte{stuck}, 32))
+				}
+				var r, s *secp256k1.Scalar
+				var v byte
+				var err error
+				po := protect(func() { r, s, v, err = sg.priv.SignRaw(rd, dj[:]) })
+				desc := fmt.Sprintf("long history (%s) key=%d: digest %x of event %d signed again after event %d", modeName, key, dj, j, i-1)
+				revisits++
+				switch {
+				case po.panicked:
+					w.r.Violate("C08", "sign-panic", "SignRaw:long-history", step, "%s panicked: %s", desc, po.panicMsg)
+					bad++
+				case err != nil || r == nil || s == nil:
+					w.r.Violate("C09", "healthy-read-failed", "SignRaw:long-history", step, "%s failed on a healthy entropy source: %v", desc, err)
+					bad++
+				case !bytes.Equal(r.Bytes(), outs[j][:32]) || !bytes.Equal(s.Bytes(), outs[j][32:64]):
+					w.r.Violate("C09", "nondeterministic-nonce", "long-history:revisit", step, "%s: (r=%x s=%x), the first time it was (r=%x s=%x) - same key, digest and entropy", desc, r.Bytes(), s.Bytes(), outs[j][:32], outs[j][32:64])
+					bad++
+				case v != outs[j][64]:
+					w.r.Violate("C08", "recovery-id-unstable", "long-history:revisit", step, "%s: the same (r=%x, s=%x) now comes with recovery id %d, the first time with %d", desc, r.Bytes(), s.Bytes(), v, outs[j][64])
+					bad++
+				}
+			}
+		}
 		copy(digest[:], base)
 		binary.BigEndian.PutUint32(digest[28:], binary.BigEndian.Uint32(base[28:])+uint32(i))
 		var rd io.Reader
@@ -99,6 +140,11 @@ func (w *World) opLongHistory(step int) {
 			ent = append([]byte(nil), shared.Bytes[32*i:32*(i+1)]...)
 		}
 		rb, sb := r.Bytes(), s.Bytes()
+		var o65 [65]byte
+		copy(o65[:32], rb)
+		copy(o65[32:64], sb)
+		o65[64] = v
+		outs = append(outs, o65)
 		h.Write(rb)
 		h.Write(sb)
 		h.Write([]byte{v})
@@ -192,7 +238,12 @@ func (w *World) opLongHistory(step int) {
 	}
 	w.r.Hist("%d long history key=%d mode=%s events=%d -> sha256(r|s|v...)=%x", step, key, modeName, n, h.Sum(nil))
 	w.r.ProbeN("long_history_events", n)
+	w.r.ProbeN("long_history_revisits", revisits)
 }
+
+// revisitDistances: how many events back a long history looks when it signs
+// an earlier digest again.
+var revisitDistances = []int{1, 2, 3, 4, 5, 7, 8, 9, 15, 16, 17, 31, 32, 33, 63, 64, 65, 127, 128, 129, 255, 256, 257, 511, 512, 513, 1023, 1024, 1025}
 
 // checkEncodingsOfEvent signs (key, digest, entropy) again through Sign in
 // every encoding; the bytes must parse back (model parser and library
